@@ -114,7 +114,6 @@ pub fn check_structure(spec: &SpecTable, input: &[u8], tags: &[TagV], clean_end:
     let mut stack: Vec<Open> = Vec::new();
     let mut implied: Vec<u64> = Vec::new();
     let mut determined = false;
-    let mut indeterminate = false;
     let mut cur = 0usize;
     for (i, w) in walked.iter().enumerate() {
         let t = &w.tag;
@@ -136,6 +135,7 @@ pub fn check_structure(spec: &SpecTable, input: &[u8], tags: &[TagV], clean_end:
                 if !determined {
                     fail!("end-without-start", "item {}: End of {:x} with no master open and no position determined yet", i, t.id);
                 }
+                // implied ancestors lie outside every explicitly opened master
                 match implied.pop() {
                     Some(id) if id == t.id => st.inc("probe_implied_ancestor_end"),
                     other => fail!("implied-end-mismatch", "item {}: End of {:x} with no Start open; the next implied ancestor is {:x?}", i, t.id, other),
@@ -166,17 +166,18 @@ pub fn check_structure(spec: &SpecTable, input: &[u8], tags: &[TagV], clean_end:
             }
         }
         if !determined && !ed.has_global() {
-            if stack.is_empty() {
-                implied = ed.path.iter().map(|p| if let ebml_iterable::specs::PathPart::Id(x) = p { *x } else { unreachable!() }).collect();
-                determined = true;
-                if !implied.is_empty() {
-                    st.inc("probe_mid_document_start");
-                }
-            } else {
-                indeterminate = true;
+            // the first element with a placeholder-free path fixes the position: its declared
+            // parents are implied, outside whatever (global) masters were opened before it
+            implied = ed.path.iter().map(|p| if let ebml_iterable::specs::PathPart::Id(x) = p { *x } else { unreachable!() }).collect();
+            determined = true;
+            if !implied.is_empty() {
+                st.inc("probe_mid_document_start");
+            }
+            if !stack.is_empty() {
+                st.inc("probe_masters_open_before_position_known");
             }
         }
-        if determined && !indeterminate {
+        if determined {
             let mut chain: Vec<u64> = implied.clone();
             chain.extend(stack.iter().map(|m| m.id));
             if !ref_match(&ed.path, &chain) {
@@ -221,7 +222,7 @@ impl Check for C06 {
 
     fn gen(&self, seed: u64, spec_seed: u64, tier: Tier) -> ReadCase {
         let mut rng = Rng::new(seed);
-        let spec = cases::spec_for(spec_seed, &SpecOpts::default());
+        let spec = cases::spec_for(spec_seed, &SpecOpts { global_masters: true, ..Default::default() });
         let mut doc_o = cases::doc_opts_for(tier, &mut rng);
         doc_o.unknown_pct = *rng.pick(&[0u64, 30, 60, 90]);
         doc_o.pay.max_len = doc_o.pay.max_len.min(300);
@@ -302,7 +303,7 @@ impl Check for C06 {
     fn assumptions(&self) -> Vec<&'static str> {
         vec![
             "positions come from the checker's own tiling; runs whose items do not mirror the bytes are left to C03",
-            "hierarchy is judged from the first element whose declared path has no placeholder, as the property says; if a master was opened before that element the run's hierarchy checks are skipped",
+            "hierarchy is judged from the first element whose declared path has no placeholder, as the property says; its declared parents are taken as implied ancestors lying outside any (global) master opened before it",
             "whether an unknown-size master's End is emitted at the right moment is C07's subject; here a missing close shows up as a hierarchy violation of the following element",
         ]
     }
